@@ -70,6 +70,21 @@ theorem Sample_ok (o : Ops α) (fix : Bool) (P : Params α) (r : α) (logits : L
       injection hS with hS
       exact ⟨t, rfl, hS⟩
 
+/-- on the greedy branch `sample` returns what `greedy` returns (the F18c variant only turns an
+    all `-Inf` result into an error) -/
+theorem sampleCore_greedy (o : Ops α) (fix : Bool) (P : Params α) (r : α) (ts : List (Tok α)) (t : Tok α)
+    (ht : o.beq P.temp o.zero = true) (hc : sampleCore o fix P r ts = .ok t) : greedy o ts = .ok t := by
+  unfold sampleCore at hc
+  simp only [ht, if_true] at hc
+  cases hg : greedy o ts with
+  | error e => rw [hg] at hc; cases hc
+  | ok t' =>
+    rw [hg] at hc
+    simp only at hc
+    split at hc
+    · cases hc
+    · injection hc with hc; rw [hc]
+
 /-! ### the property theorems -/
 
 /-- **greedy_argmax.**  With temperature 0 `Sample` returns an index into the logits whose logit
@@ -79,8 +94,7 @@ theorem greedy_argmax {o : Ops α} (h : OrdLaws o) (fix : Bool) (P : Params α) 
     (hS : Sample o fix P r logits = .ok id) :
     ∃ v, logits[id]? = some v ∧ ∀ w ∈ logits, o.lt v w = false := by
   obtain ⟨t, hc, hid⟩ := Sample_ok o fix P r logits id hS
-  unfold sampleCore at hc
-  simp only [ht, if_true] at hc
+  have hc := sampleCore_greedy o fix P r _ t ht hc
   obtain ⟨hm, hmax⟩ := greedy_spec h _ _ hc
   refine ⟨t.val, by rw [← hid]; exact mkTokens_mem _ _ hm, ?_⟩
   intro w hw
@@ -133,21 +147,24 @@ theorem pick_first_index {o : Ops α} (h : OrdLaws o) (C : List (Tok α)) (targe
 
 /-- **no panic**: with a non-empty logit vector and temperature > 0 the pinned `Sample` returns a
     token or the NaN error as soon as the two arithmetic run contracts hold (`max·minP ≤ max`,
-    `r·total ≤ total`); at temperature 0 it always returns a token. -/
+    `r·total ≤ total`); at temperature 0 it always returns a token (or, with the proposed F18c
+    repair, the "all -Inf" error). -/
 theorem sample_never_panics (o : Ops α) (P : Params α) (r : α) (logits : List α) (hne : logits ≠ [])
     (hmin : ∀ t0 rest, topP o P.topP (probsOf o P (topK o P.topK (mkTokens logits))) = t0 :: rest →
         o.lt t0.val (o.mul t0.val P.minP) = false)
     (hr : ∀ f last, minP o P.minP (topP o P.topP (probsOf o P (topK o P.topK (mkTokens logits)))) = .ok f →
         (cumsum o o.zero f).getLast? = some last → o.lt last.val (o.mul r last.val) = false) :
-    (∃ id, Sample o false P r logits = .ok id) ∨ Sample o false P r logits = .error .nanSum := by
+    (∃ id, Sample o false P r logits = .ok id) ∨ Sample o false P r logits = .error .nanSum ∨
+      Sample o false P r logits = .error .allNegInf := by
   cases logits with
   | nil => exact absurd rfl hne
   | cons v vs =>
     simp only [Sample, sampleCore]
     split
-    · left
-      simp only [mkTokens, mkTokensFrom, greedy, Except.map]
-      exact ⟨_, rfl⟩
+    · simp only [mkTokens, mkTokensFrom, greedy]
+      split
+      · right; right; rfl
+      · left; exact ⟨_, rfl⟩
     · have hL : topK o P.topK (mkTokens (v :: vs)) ≠ [] := by
         intro h0
         by_cases hk : (P.topK ≥ ((mkTokens (v :: vs)).length : Int) ∨ P.topK ≤ 0)
@@ -161,7 +178,7 @@ theorem sample_never_panics (o : Ops α) (P : Params α) (r : α) (logits : List
           simp at this; omega
       rcases afterTopK_no_panic o P r _ hL hmin hr with ⟨t, ht⟩ | he
       · left; rw [ht]; exact ⟨t.id, rfl⟩
-      · right; rw [he]; rfl
+      · right; left; rw [he]; rfl
 
 theorem shiftMax_cases (o : Ops α) (L : List (Tok α)) (hL : L ≠ []) :
     shiftMax o L = .error .allNegInf ∨ ∃ L1, shiftMax o L = .ok L1 ∧ L1 ≠ [] := by
@@ -188,9 +205,10 @@ theorem sample_never_panics_fixed (o : Ops α) (P : Params α) (r : α) (logits 
   | cons v vs =>
     simp only [Sample, sampleCore]
     split
-    · left
-      simp only [mkTokens, mkTokensFrom, greedy, Except.map]
-      exact ⟨_, rfl⟩
+    · simp only [mkTokens, mkTokensFrom, greedy]
+      split
+      · right; right; rfl
+      · left; exact ⟨_, rfl⟩
     · have hL : topK o P.topK (mkTokens (v :: vs)) ≠ [] := by
         intro h0
         by_cases hk : (P.topK ≥ ((mkTokens (v :: vs)).length : Int) ∨ P.topK ≤ 0)
@@ -225,11 +243,12 @@ theorem sample_never_panics_fixed (o : Ops α) (P : Params α) (r : α) (logits 
 theorem index_in_range (o : Ops α) (fix : Bool) (P : Params α) (r : α) (logits : List α) (id : Nat)
     (hS : Sample o fix P r logits = .ok id) : id < logits.length := by
   obtain ⟨t, hc, hid⟩ := Sample_ok o fix P r logits id hS
-  unfold sampleCore at hc
   have key : ∃ y ∈ mkTokens logits, y.id = id := by
-    split at hc
-    · exact ⟨t, greedy_mem o _ _ hc, hid⟩
-    · obtain ⟨y, hy, hyid⟩ := afterTopK_id_any o fix P r _ t hc
+    by_cases ht : o.beq P.temp o.zero = true
+    · exact ⟨t, greedy_mem o _ _ (sampleCore_greedy o fix P r _ t ht hc), hid⟩
+    · unfold sampleCore at hc
+      simp only [ht, if_false] at hc
+      obtain ⟨y, hy, hyid⟩ := afterTopK_id_any o fix P r _ t hc
       exact ⟨y, topK_mem o _ _ y hy, by rw [hyid, hid]⟩
   obtain ⟨y, hy, hyid⟩ := key
   have := mkTokens_mem logits y hy
@@ -452,7 +471,7 @@ def ops : Ops X where
   tempFloor := fin 0
 end X
 
-def xParams : Params X := ⟨.fin 1, 0, .fin 1, .fin 0⟩
+def xParams : Params X := ⟨.fin 1, 0, .fin 1, .fin 0, false⟩
 
 def errOf {β : Type} : Except Err β → Option Err
   | .error e => some e
@@ -672,6 +691,18 @@ theorem grammar_retry_admissible_fixed_partial {o : Ops α} (laws : Laws o)
   rw [hacc] at hvw
   simp only [if_true] at hvw
   exact ⟨hacc, ⟨w, hw, by rw [← hvw]; exact hne⟩, f, hf, x, List.mem_of_getElem? hx, hxid⟩
+/-- **Witness of finding F18c.**  Temperature 0, the grammar accepts only token 1 whose logit is
+    `-Inf`: the first (greedy) pick 0 is rejected, the retry runs greedy over the all `-Inf` masked
+    logits and returns token 0 again — a token the grammar rejects, which the real code then hands
+    to llama.cpp's `Accept` (throws, process abort).  With the proposed repair (`greedyErr`) the
+    call reports the "all -Inf" error instead. -/
+theorem F18c_greedy_retry_returns_rejected :
+    (sampleStepG X.ops (fun _ => .fin 0) true ⟨.fin 0, 40, .fin 1, .fin 0, false⟩ ⟨0, 0⟩
+        [.fin 5, .ninf, .fin 1] [1]).1.toOption = some 0 ∧
+    ([1] : List Nat).contains 0 = false ∧
+    errOf (sampleStepG X.ops (fun _ => .fin 0) true ⟨.fin 0, 40, .fin 1, .fin 0, true⟩ ⟨0, 0⟩
+        [.fin 5, .ninf, .fin 1] [1]).1 = some .allNegInf := by
+  decide
 /-! ### the laws are satisfiable -/
 
 /-- the laws are satisfiable: the integers with their usual order and arithmetic -/
